@@ -52,6 +52,10 @@ fn gen(t: Tier, _seed: u64, emit: &mut dyn FnMut(Case)) {
             }
             emit(Case::View { cid, n, s: 1, ph: noff(bits) / 2 + 1, variant: 3 });
         }
+        for n in huge_lengths(bits).into_iter().step_by(2) {
+            emit(Case::Owned { cid, n, variant: 4 });
+            emit(Case::View { cid, n, s: 1, ph: 0, variant: 4 });
+        }
         for n in ARRAY_NS {
             if n * bits <= 192 {
                 emit(Case::Array { cid, n });
@@ -98,6 +102,23 @@ fn positions<A: Codec>(n: usize, full: bool) -> Vec<usize> {
     if n <= 12 || full {
         return (0..=n).collect();
     }
+    if n > 2000 {
+        // very long parents: the ends, the middle, the first and last word boundaries and the 64-word boundary
+        let bits = A::BITS as usize;
+        let mut v = vec![0, 1, n / 2, n - 1, n];
+        let words = n * bits / 64;
+        for w in [1usize, 64, words.saturating_sub(1), words] {
+            let b = 64 * w / bits;
+            for p in [b.saturating_sub(1), b, b + 1] {
+                if p <= n {
+                    v.push(p);
+                }
+            }
+        }
+        v.sort();
+        v.dedup();
+        return v;
+    }
     let bits = A::BITS as usize;
     let mut v: Vec<usize> = vec![];
     for e in [0usize, n] {
@@ -108,6 +129,11 @@ fn positions<A: Codec>(n: usize, full: bool) -> Vec<usize> {
     }
     let mut w = 1;
     while 64 * w / bits <= n + 2 {
+        // beyond 20 words only the powers of two (and the last few) word boundaries
+        if w > 20 && !w.is_power_of_two() && 64 * (w + 3) / bits <= n {
+            w += 1;
+            continue;
+        }
         let b = 64 * w / bits;
         for d in 0..=2usize {
             if b >= d && b - d <= n {
@@ -166,6 +192,47 @@ fn check_parent<A: Sx>(kind: &str, p: &SeqSlice<A>, model: &[A], depth: usize, f
                     single,
                     model[i]
                 ),
+            )
+        });
+    }
+    // ... including positions whose bit offset does not fit a machine word
+    out.stage = "out-of-bounds index (far)";
+    let b = A::BITS as usize;
+    let far: Vec<usize> = [
+        Some(usize::MAX),
+        Some(usize::MAX - 1),
+        Some(usize::MAX / b),
+        (usize::MAX / b).checked_add(1),
+        (usize::MAX / b).checked_add(2),
+        Some(1usize << 63),
+        Some((1usize << 63) + 1),
+        Some(1usize << 62),
+        Some(1usize << 61),
+        (1usize << 61).checked_add(n),
+        Some(usize::MAX / 2 + 1),
+    ]
+    .into_iter()
+    .flatten()
+    .collect();
+    for i in far {
+        if i < n {
+            continue;
+        }
+        let g = p.get(i);
+        out.check(g.is_none(), || (format!("{cn}/{kind}/get-far-past-end-returns-symbol"), format!("get({i:#x}) on length {n} = {:?}", g)));
+        let r = out.catch(|| p.nth(i));
+        out.check(r.is_err(), || (format!("{cn}/{kind}/nth-far-past-end-does-not-panic"), format!("nth({i:#x}) on length {n} returned {:?}", r)));
+        let r = out.catch(|| p[i].len());
+        out.check(r.is_err(), || (format!("{cn}/{kind}/index-far-past-end-does-not-panic"), format!("[{i:#x}] on length {n} returned a slice of len {:?}", r)));
+        let r1 = out.catch(|| p[i..].len());
+        let r2 = out.catch(|| p[..i].len());
+        let r3 = if i < usize::MAX { out.catch(|| p[i..i + 1].len()) } else { Err("n/a".to_string()) };
+        let r4 = out.catch(|| p[..=i].len());
+        let r5 = out.catch(|| p[0..=i].len());
+        out.check(r1.is_err() && r2.is_err() && r3.is_err() && r4.is_err() && r5.is_err(), || {
+            (
+                format!("{cn}/{kind}/range-far-past-end-does-not-panic"),
+                format!("on length {n}: [{i:#x}..] -> {:?}, [..{i:#x}] -> {:?}, [{i:#x}..+1] -> {:?}, [..={i:#x}] -> {:?}, [0..={i:#x}] -> {:?}", r1, r2, r3, r4, r5),
             )
         });
     }
